@@ -1,7 +1,7 @@
 """C18 - Newick, Nexus and FASTA exports encode the trees and sequences faithfully (structural clauses)."""
 from __future__ import annotations
 
-from . import lib_newick, lib_guards, lib_module, lib_py, lib_variant, lib_err
+from . import scopes, lib_newick, lib_guards, lib_module, lib_py, lib_variant, lib_err
 
 LEVEL = "other"
 EXPLANATION = ("Bounded writes in the C newick converter (typestate), exact root / precision / buffer guards, agreement of the fast "
@@ -15,16 +15,17 @@ def run(ctx):
     py = ctx.python()
     lib_newick.bounded_writes(ctx, P)
     lib_newick.path_agreement(ctx, P, py)
-    lib_newick.none_defaults(ctx, py)
-    lib_variant.traversal_push(ctx, P)
+    ps, ms = scopes.py_scope("C18"), scopes.module_scope("C18")
+    lib_newick.none_defaults(ctx, py, only=ps)
+    lib_variant.traversal_push(ctx, P, tus=["convert"])
     funcs = {"tsk_newick_converter_run"}
     seen = lib_guards.analyse(ctx, P, funcs=funcs)
     lib_guards.presence(ctx, seen, funcs=funcs)
     lib_module.options_plumbing(ctx, P, funcs={"Tree_get_newick"})
-    lib_module.parsed_used(ctx, P)
+    lib_module.parsed_used(ctx, P, only=ms)
     lib_err.discipline(ctx, P, ["convert"])
-    lib_py.kw_forward(ctx, py, mods=("trees", "text_formats"))
-    lib_py.unused_params(ctx, py, mods=("trees", "text_formats"))
+    lib_py.kw_forward(ctx, py, mods=("trees", "text_formats"), only=ps)
+    lib_py.unused_params(ctx, py, mods=("trees", "text_formats"), only=ps)
     # module guards of Tree_get_newick: precision in [0, 17], buffer_size > 0
     tu = P.tus["module"]
     fn = P.need("Tree_get_newick", "module")
